@@ -106,17 +106,26 @@ def _strip_comments(src: str) -> str:
     return "".join(out)
 
 
+def prop_modules(pid: str) -> list[str]:
+    """Lean modules holding the property's theorems: Props/<pid>.lean and continuation files Props/<pid>[a-z].lean."""
+    d = LEAN / "MdIt" / "Props"
+    out = [f"MdIt.Props.{pid}"] if (d / f"{pid}.lean").exists() else []
+    out += [f"MdIt.Props.{f.stem}" for f in sorted(d.glob(f"{pid}[a-z].lean"))]
+    return out
+
+
 def prop_theorems(pid: str) -> list[str]:
-    """Fully qualified names of the theorems stated in lean/MdIt/Props/<pid>.lean."""
-    f = LEAN / "MdIt" / "Props" / f"{pid}.lean"
-    if not f.exists():
-        return []
-    src = _strip_comments(f.read_text())
-    ns = [f"MdIt.{pid}"]
-    m = re.search(r"^namespace\s+(\S+)", src, re.M)
-    if m:
-        ns = [m.group(1)]
-    return [f"{ns[0]}.{n}" for n in re.findall(r"^\s*theorem\s+([A-Za-z_][\w'.]*)", src, re.M)]
+    """Fully qualified names of the theorems stated in lean/MdIt/Props/<pid>.lean (and continuation files)."""
+    out = []
+    for mod in prop_modules(pid):
+        f = LEAN / (mod.replace(".", "/") + ".lean")
+        src = _strip_comments(f.read_text())
+        ns = [f"MdIt.{pid}"]
+        m = re.search(r"^namespace\s+(\S+)", src, re.M)
+        if m:
+            ns = [m.group(1)]
+        out += [f"{ns[0]}.{n}" for n in re.findall(r"^\s*theorem\s+([A-Za-z_][\w'.]*)", src, re.M)]
+    return out
 
 
 def grep_forbidden() -> list[str]:
@@ -149,7 +158,8 @@ def lean_prepare(pid: str, tier: str = "quick") -> LeanStatus:
             st.theorems = prop_theorems(pid)
             return st
         st.theorems = prop_theorems(pid)
-        targets = [f"MdIt.Props.{pid}", "driver"]
+        mods = prop_modules(pid) or [f"MdIt.Props.{pid}"]
+        targets = [*mods, "driver"]
         p = subprocess.run(
             ["lake", "build", *targets], cwd=LEAN, capture_output=True, text=True, timeout=3000
         )
@@ -166,7 +176,7 @@ def lean_prepare(pid: str, tier: str = "quick") -> LeanStatus:
         adir.mkdir(exist_ok=True)
         af = adir / f"{pid}.lean"
         af.write_text(
-            f"import MdIt.Props.{pid}\n" + "".join(f"#print axioms {t}\n" for t in st.theorems)
+            "".join(f"import {m_}\n" for m_ in mods) + "".join(f"#print axioms {t}\n" for t in st.theorems)
         )
         p = subprocess.run(
             ["lake", "env", "lean", str(af)], cwd=LEAN, capture_output=True, text=True, timeout=1200
@@ -182,7 +192,7 @@ def lean_prepare(pid: str, tier: str = "quick") -> LeanStatus:
                 st.bad_axioms[m.group(1)] = bad
         if tier == "thorough":
             p = subprocess.run(
-                ["lake", "env", "leanchecker", f"MdIt.Props.{pid}"],
+                ["lake", "env", "leanchecker", *mods],
                 cwd=LEAN, capture_output=True, text=True, timeout=3000,
             )
             if p.returncode != 0:
